@@ -692,9 +692,9 @@ var Engine = &core.Engine{
 	},
 	Cases: func(tier string) int {
 		if tier == "thorough" {
-			return 3000
+			return 4000
 		}
-		return 90
+		return 240
 	},
 	Batch: func(string) int { return 6 },
 	Run:   run,
